@@ -156,7 +156,7 @@ pub struct Obs {
     nontrivial: Vec<u64>,
     sample: Option<String>,
     want_sample: bool,
-    known: BTreeSet<String>,
+    known: KnownSigs,
     /// true when the case is being re-run by `--replay`
     pub replay: bool,
 }
@@ -233,6 +233,72 @@ pub struct ReplayFile {
     pub case: serde_json::Value,
 }
 
+/// The signatures of the recorded findings of one property.  An entry is matched exactly, except
+/// that the marker `{*}` inside an entry stands for any (possibly empty) run of characters: one
+/// root cause that shows under an open-ended family of call sites (one signature per mnemonic,
+/// say) is recorded once, e.g. `C01|amd64|{*}|-|*|addr32`.
+#[derive(Clone, Debug, Default)]
+pub struct KnownSigs {
+    exact: BTreeSet<String>,
+    patterns: Vec<String>,
+}
+
+impl KnownSigs {
+    pub fn insert(&mut self, sig: String) {
+        if sig.contains("{*}") {
+            if !self.patterns.contains(&sig) {
+                self.patterns.push(sig);
+            }
+        } else {
+            self.exact.insert(sig);
+        }
+    }
+    /// the entry that covers `sig`
+    pub fn entry_of(&self, sig: &str) -> Option<&str> {
+        if let Some(e) = self.exact.get(sig) {
+            return Some(e.as_str());
+        }
+        self.patterns.iter().find(|p| glob_match(p, sig)).map(|p| p.as_str())
+    }
+    pub fn contains(&self, sig: &str) -> bool {
+        self.entry_of(sig).is_some()
+    }
+    pub fn is_empty(&self) -> bool {
+        self.exact.is_empty() && self.patterns.is_empty()
+    }
+}
+
+impl FromIterator<String> for KnownSigs {
+    fn from_iter<I: IntoIterator<Item = String>>(it: I) -> Self {
+        let mut k = KnownSigs::default();
+        for s in it {
+            k.insert(s);
+        }
+        k
+    }
+}
+
+/// `pattern` with `{*}` markers against `text` (anchored at both ends)
+pub fn glob_match(pattern: &str, text: &str) -> bool {
+    let parts: Vec<&str> = pattern.split("{*}").collect();
+    if parts.len() == 1 {
+        return pattern == text;
+    }
+    let first = parts[0];
+    let last = parts[parts.len() - 1];
+    if !text.starts_with(first) {
+        return false;
+    }
+    let mut rest = &text[first.len()..];
+    for mid in &parts[1..parts.len() - 1] {
+        match rest.find(mid) {
+            Some(i) => rest = &rest[i + mid.len()..],
+            None => return false,
+        }
+    }
+    rest.len() >= last.len() && rest.ends_with(last)
+}
+
 #[derive(Clone, Debug, Deserialize)]
 pub struct KnownFinding {
     pub property: String,
@@ -246,7 +312,7 @@ pub struct KnownFinding {
 }
 
 /// Signatures of the recorded (status "known") findings of a property; for fuzz targets.
-pub fn known_signatures(id: &str) -> BTreeSet<String> {
+pub fn known_signatures(id: &str) -> KnownSigs {
     load_known(id)
         .into_iter()
         .filter(|k| k.status == "known")
@@ -256,7 +322,7 @@ pub fn known_signatures(id: &str) -> BTreeSet<String> {
 
 impl Obs {
     /// An observation sink outside the engine (libFuzzer targets).
-    pub fn standalone(known: BTreeSet<String>) -> Obs {
+    pub fn standalone(known: KnownSigs) -> Obs {
         Obs {
             known,
             ..Obs::default()
@@ -273,7 +339,7 @@ pub fn fuzz_one<C: Serialize>(
     check: &dyn Fn(&C, &mut Obs) -> Result<(), Failure>,
 ) {
     thread_local! {
-        static KNOWN: RefCell<Option<(String, BTreeSet<String>)>> = const { RefCell::new(None) };
+        static KNOWN: RefCell<Option<(String, KnownSigs)>> = const { RefCell::new(None) };
     }
     let known = KNOWN.with(|k| {
         let mut k = k.borrow_mut();
@@ -543,7 +609,7 @@ where
         };
         libc::setrlimit(libc::RLIMIT_AS, &lim);
     }
-    let known: BTreeSet<String> = load_known(spec.id)
+    let known: KnownSigs = load_known(spec.id)
         .into_iter()
         .filter(|k| k.status == "known")
         .map(|k| k.signature)
@@ -607,7 +673,7 @@ where
                 if known.contains(&f.sig) {
                     if counting {
                         t.evaluations += 1;
-                        *t.known_hits.entry(f.sig.clone()).or_insert(0) += 1;
+                        *t.known_hits.entry(known.entry_of(&f.sig).unwrap_or(&f.sig).to_string()).or_insert(0) += 1;
                         *t.excluded.entry("known_finding".into()).or_insert(0) += 1;
                         // the case still belongs to its classes (generator distribution)
                         for c in &obs.classes {
@@ -973,7 +1039,7 @@ where
     let _ = std::fs::remove_dir_all(&work);
     std::fs::create_dir_all(&work).expect("work dir");
     let known = load_known(id);
-    let known_sigs: BTreeSet<String> = known
+    let known_sigs: KnownSigs = known
         .iter()
         .filter(|k| k.status == "known")
         .map(|k| k.signature.clone())
